@@ -566,8 +566,7 @@ def r_layout_order(model, rep):
         if not stored_when_found:
             # the condition sits on the store itself (a helper's result tested as a whole): what it says on this path
             sc = facts.Scenario(cx, atoms={probe: False, has_scheme: False, exists_cp: True})
-            gs = [sc.term(g[0]) for g in e.store.raw_guards if g[1] is True]
-            stored_when_found = any(facts.canon_guard((T.degate(g), True)) == notnone for g in gs)
+            stored_when_found = any(facts.canon_guard((T.degate(sc.term(g[0])), g[1])) == notnone for g in e.store.raw_guards)
         okl = V == want_v and need <= atoms and atoms - need <= {notnone} and stored_when_found
     rep.ob("R-LAYOUT-ORDER", "Compose.__init__:legacy-scan", okl, site=cx.site(legacy[0].store.lineno if legacy else f.node),
            msg="" if okl else "the legacy scan must run only when <path>/compose was not chosen, for local existing paths, choose "
